@@ -360,6 +360,8 @@ def gen_hist(rng):
             "cfg": {"flavour": rng.choice(["inc", "inc", "inc", "opaque", "weird"]), "salt": rng.getrandbits(32), "chunk_max": rng.choice([0, 1, 2, 3, 7, 64, 4096]),
                     "fs_seed": rng.getrandbits(30), "locale": rng.choice(["utf-8", "cp1252", "ascii"])},
             "gens": 0, "fs": {"files": files, "binfiles": binfiles, "faults": faults}, "tasks": [{"streams": streams, "ops": ops}]}
+    if rng.random() < 0.1:
+        spec["cfg"]["migrate"] = rng.choice(["alt", "all"])  # the history moves between threads (strictly sequential)
     if rng.random() < 0.03:
         # path collision: the file system holds an entry whose NAME is the whole text of a source
         kind = rng.random()
